@@ -55,6 +55,7 @@ class OfRun(object):
         cls = univ.SequenceOf if setup['kind'] == 'SEQUENCEOF' else univ.SetOf
         self.o = cls(componentType=univ.Integer()) if setup['typed'] else cls()
         self.m = None            # None = schema; else list of ints
+        self.pending = False     # a placeholder element (handed out by the instantiating accessor, not yet a value) sits at the end
         self.nested = bool(setup.get('nested'))
         if self.nested:
             inner = univ.SequenceOf(componentType=univ.Integer())
@@ -103,6 +104,15 @@ class OfRun(object):
             isv = o.isValue
         except Exception as ex:
             return fail('of', 'isValue-raises', 'isValue raised %s after %s' % (harness.exc_sig(ex), what), self.hist, harness.exc_sig(ex))
+        if self.pending:
+            # an element that is still a placeholder: the container is not a value and must not encode
+            if isv:
+                return fail('of', 'isValue', 'object whose last element is a placeholder reports isValue True after %s' % what, self.hist)
+            e = lib.encode('DER', o)
+            if e.ok or e.status == 'leak':
+                return fail('of', 'placeholder-encodes', 'container with a placeholder element: encode gives %s after %s' % (
+                    e.brief() if not e.ok else e.value.hex(), what), self.hist, e.sig)
+            return None
         if m is None:
             if isv:
                 return fail('of', 'isValue', 'schema object reports isValue after %s' % what, self.hist)
@@ -131,12 +141,23 @@ class OfRun(object):
         """Execute one op on object and model. -> failure or None"""
         if self.nested and op[0] in ('sort', 'read', 'bad', 'setslice'):
             return None             # the nested variant exercises structure sharing only
+        if op[0] in ('touch', 'fill') and not (self.nested and self.setup['typed'] and self.m is not None):
+            return None
+        if self.pending != (op[0] == 'fill'):
+            return None             # while a placeholder is pending the only step is to complete it
         self.hist['ops'].append(op)
         name = op[0]
         o = self.o
         m = self.m
         try:
-            if name == 'append':
+            if name == 'touch':
+                o.getComponentByPosition(len(m))            # documented: instantiates the element in place
+                self.pending = True
+            elif name == 'fill':
+                o.getComponentByPosition(len(m), instantiate=False).append(op[1])
+                self.m = m + [op[1]]
+                self.pending = False
+            elif name == 'append':
                 o.append(self.elem(op[1]))
                 self.m = (m or []) + [op[1]]
             elif name == 'extend':
@@ -206,9 +227,12 @@ class OfRun(object):
                 self.m = None
             elif name == 'clone':
                 before = self.snapshot()
-                c = o.clone(cloneValueFlag=op[1])
+                # (op[2]: through subtype() without new tags or constraints, which takes the same cloneValueFlag)
+                c = o.subtype(cloneValueFlag=op[1]) if len(op) > 2 and op[2] else o.clone(cloneValueFlag=op[1])
                 if self.snapshot() != before:
                     return fail('of', 'clone-changes-original', 'clone() changed the original', self.hist)
+                if not op[1] and c.isValue:
+                    return fail('of', 'clone-keeps-values', 'clone / subtype without cloneValueFlag is a value', self.hist)
                 if op[1] and m is not None:
                     # deep copy: mutate the clone, the original must not follow
                     c.append(self.elem(424242) if self.nested else univ.Integer(424242))
@@ -323,6 +347,18 @@ class OfRun(object):
                 elif which == 9:
                     if not (o == o.clone(cloneValueFlag=True)) or (o != o.clone(cloneValueFlag=True)):
                         return fail('of', 'read-eq', 'object differs from its own deep clone', self.hist)
+                    # ... and, like a list, from a container that holds something else
+                    other = o.clone(cloneValueFlag=True)
+                    other.append(univ.Integer(424242))
+                    if (o == other) or not (o != other):
+                        return fail('of', 'read-eq', 'object compares equal to a container with one more element', self.hist)
+                    if n:
+                        other = o.clone(cloneValueFlag=True)
+                        other[0] = univ.Integer(int(m[0]) + 1)
+                        if (o == other) or not (o != other):
+                            return fail('of', 'read-eq', 'object compares equal to a container with another first element', self.hist)
+                    if (o == m) is False or (o != m) is True:
+                        return fail('of', 'read-eq', 'object differs from the list of its own elements', self.hist)
         except Exception as ex:
             return fail('of', 'reader-raises', 'reader %d raised %s: %s' % (which, harness.exc_sig(ex), str(ex)[:80]), self.hist, 'read%d:%s' % (which, harness.exc_sig(ex)))
         if self.snapshot() != before:
@@ -1050,6 +1086,14 @@ def run_shard(desc, seed, tier, col):
             def append(self, x):
                 self.do(['append', x], True)
 
+            @rule()
+            def touch(self):
+                self.do(['touch'], True)
+
+            @rule(x=ints)
+            def fill(self, x):
+                self.do(['fill', x], True)
+
             @rule(xs=st.lists(ints, max_size=3))
             def extend(self, xs):
                 self.do(['extend', xs], True)
@@ -1083,9 +1127,9 @@ def run_shard(desc, seed, tier, col):
             def reset(self):
                 self.do(['reset'], True)
 
-            @rule(flag=st.booleans())
-            def clone(self, flag):
-                self.do(['clone', flag], True)
+            @rule(flag=st.booleans(), via_subtype=st.booleans())
+            def clone(self, flag, via_subtype):
+                self.do(['clone', flag, via_subtype], True)
 
             @rule(which=st.integers(0, 10), arg=st.integers(0, 20))
             def read(self, which, arg):
